@@ -338,8 +338,13 @@ class Session:
         self.client_hello_seen = True
 
     def handle_tls_server_hello(self, record: TlsRecord):
-        if self.client_hello_seen:
-            self.can_decrypt = True
+        if not self.client_hello_seen:
+            # ServerHello without a preceding ClientHello (e.g. capture started mid-handshake):
+            # the client random is unknown, so no keys can be looked up for this connection
+            self.can_decrypt = False
+            return
+
+        self.can_decrypt = True
 
         self.server_random = record.binary[6: 38]
         logging.info(f"Server Random: {self.server_random.hex()}")
@@ -386,7 +391,9 @@ class Session:
                     else:
                         self.tls_version = TlsVersion.TLS12
                 else:
+                    # unsupported protocol version
                     self.can_decrypt = False
+                    return
         self.generate_keys(self.tls_version, self.ciphersuite, self.client_random, self.server_random)
 
     def handle_alert(self, alert_level):
